@@ -196,6 +196,14 @@ func (r *SimReader) fault(kind string) {
 	}
 }
 
+// RefusingSeeker gives a reader a Seek method that always fails, like an *os.File that is a
+// pipe, a FIFO or a terminal: having the method says nothing about being able to seek.
+type RefusingSeeker struct{ io.Reader }
+
+func (RefusingSeeker) Seek(offset int64, whence int) (int64, error) {
+	return 0, &fs.PathError{Op: "seek", Path: "|0", Err: errors.New("illegal seek")}
+}
+
 // IsReaderFault reports whether err is (or wraps) an error a SimReader injects: its own
 // InjectedErr, or one of the well-known sentinel values a reader fault may carry instead
 // (a closed pipe or file, no progress, a cancelled context, a deadline). The EOF-like values
